@@ -112,12 +112,13 @@ Proof. intros m c xy k Hn Hs. simpl in Hs. eapply discover_fold_new; eauto. Qed.
 (* after a (re-)discovery a command for chip (x, y) leaves by the connection of the chip's own board per the
    CURRENT dimensions when one is known, else by the initial connection *)
 Theorem rediscovery_uses_current_dimensions : forall m c x y,
+  0 < dm_w m -> 0 < dm_h m ->          (* Python raises ZeroDivisionError on `% 0`; Coq's `mod 0` does not *)
   exists rx ry, c_root (discover_step m c) = Some (rx, ry) /\
     mc_get_connection (discover_step m c) (VInt x) (VInt y)
     = Some (match cassoc (c18_local_eth_coord x y (dm_w m) (dm_h m) rx ry) (c_conns (discover_step m c)) with
             | Some k => k | None => 0 end).
 Proof.
-  intros m c x y. unfold mc_get_connection. simpl.
+  intros m c x y _ _. unfold mc_get_connection. simpl.
   destruct (c_root c) as [[rx ry]|].
   - exists rx, ry. split; [reflexivity|]. simpl.
     destruct (cassoc _ (fold_left discover_add (dm_eth m) (c_conns c))); reflexivity.
